@@ -263,6 +263,14 @@ YObj == /\ "yobj" \in OpKinds
              Do(<<"yobj", tag, lds, d>>,
                 [i \in 1 .. Len(lds) |-> <<lds[i], "ctor", tag, "FY">>] \o << <<d, "repr", tag, "FY">> >>)
 
+\* a subclass of an existing YAMLObject class that declares no yaml_tag of its own registers NOTHING, whatever
+\* yaml_loader / yaml_dumper it overrides (YAMLObjectMetaclass.__init__: 'yaml_tag' in kwds)
+YSub == /\ "yobj" \in OpKinds
+        /\ \E tag \in {y \in {"Y1", "Y2"} : (\E i \in DOMAIN hist : hist[i][1] = "yobj" /\ hist[i][2] = y)
+                                            /\ ~\E i \in DOMAIN hist : hist[i][1] = "ysub" /\ hist[i][2] = y},
+              lds \in YLoaderChoices, d \in {x \in TargetsNow \cup {"Dumper"} : IsDumper(ubase, x)} :
+             Do(<<"ysub", tag, lds, d>>, <<>>)
+
 DefineSub == \E u \in Users \ defined, b \in TargetsNow :
                /\ Len(hist) < MaxHist
                /\ defined' = defined \cup {u}
@@ -286,7 +294,7 @@ Init == /\ defined = Cls \ Users
         /\ beh = BehOf(NoUB, Cls \ Users, eff)
         /\ hist = <<>> /\ last = [op |-> <<"init">>, calls |-> <<>>]
 
-Next == Add \/ ModuleAdd \/ YObj \/ DefineSub
+Next == Add \/ ModuleAdd \/ YObj \/ YSub \/ DefineSub
 
 Spec == Init /\ [][Next]_vars
 
